@@ -148,7 +148,7 @@ theorem parseAll_wf (hasEx : Bool) : ∀ (f : Nat) (s : List UInt8), s.length < 
 
 /-! ### Totality -/
 
-theorem post_finish (cfg : Cfg) (rd : Reader) : ∃ rd', rd.post cfg .finish = .finished rd' := by
+theorem post_finish (rd : Reader) : ∃ rd', rd.post .finish = .finished rd' := by
   simp [Reader.post, FItem.cid]
 
 theorem interp_total (cfg : Cfg) : ∀ (rs : List Rec) (t : Tail) (rd : Reader), EndsProperly rs t →
@@ -194,15 +194,14 @@ theorem interp_total (cfg : Cfg) : ∀ (rs : List Rec) (t : Tail) (rd : Reader),
       | err e rd2 => simp
       | ready rd2 =>
         simp only
-        cases hpost : rd2.post cfg r.item with
+        cases hpost : rd2.post r.item with
         | finished rd3 => simp
         | err e rd3 => simp
-        | oom rd3 => simp
         | item it rd3 =>
           simp only
           cases h with
           | inl hfin =>
-            obtain ⟨rd', hf⟩ := post_finish cfg rd2
+            obtain ⟨rd', hf⟩ := post_finish rd2
             rw [hfin, hf] at hpost; simp at hpost
           | inr h => exact ih t rd3 h
 
@@ -228,78 +227,74 @@ theorem interp_not_cbErr (cfg : Cfg) : ∀ (rs : List Rec) (t : Tail) (rd : Read
       | err e rd2 => simp
       | ready rd2 =>
         simp only
-        cases hpost : rd2.post cfg r.item with
+        cases hpost : rd2.post r.item with
         | finished rd3 => simp
         | err e rd3 => simp
-        | oom rd3 => simp
         | item it rd3 => simp only; exact ih t rd3
 
 theorem runWhole_not_cbErr (cfg : Cfg) (s : List UInt8) : (runWhole cfg s).final ≠ .cbErr :=
   interp_not_cbErr cfg _ _ _
 
-/-- `PLAYER_NEW`/`INPUT_NEW` records ask for table slot `cid`. -/
+/-! ### The legacy tables (before the repair of finding D18) -/
+
+/-- `PLAYER_NEW`/`INPUT_NEW` records asked for table slot `cid`. -/
 def cidOk (n : Nat) : FItem → Bool
   | .playerNew c _ _ => decide (c.toNat < n)
   | .inputNew c _ => decide (c.toNat < n)
   | _ => true
 
-/-- No record asks for a table slot the machine cannot allocate. -/
+/-- No record asks for a table slot beyond `n`. -/
 def CidsBelow (n : Nat) (rs : List Rec) : Prop := ∀ r ∈ rs, cidOk n r.item = true
 
 instance (n : Nat) (rs : List Rec) : Decidable (CidsBelow n rs) := by unfold CidsBelow; infer_instance
 
-theorem post_oom {cfg : Cfg} {rd rd' : Reader} {it : FItem} (h : rd.post cfg it = .oom rd') :
-    (∃ c x y, it = .playerNew c x y ∧ ¬ c.toNat < cfg.memCids) ∨
-    (∃ c v, it = .inputNew c v ∧ ¬ c.toNat < cfg.memCids) := by
-  unfold Reader.post at h
-  cases it with
-  | playerNew c x y =>
-    left; refine ⟨c, x, y, rfl, ?_⟩
-    simp only at h
-    repeat' split at h
-    all_goals first
-      | (simp at h; done)
-      | omega
-  | inputNew c v =>
-    right; refine ⟨c, v, rfl, ?_⟩
-    simp only at h
-    repeat' split at h
-    all_goals first
-      | (simp at h; done)
-      | omega
-  | _ =>
-    simp only at h
-    repeat' split at h
-    all_goals (simp at h; done)
+theorem Legacy.post_of_cidOk {slots : Nat} {it : FItem} (h : cidOk slots it = true) (rd : Reader) :
+    Legacy.post slots rd it = some (rd.post it) := by
+  unfold Legacy.post
+  cases hs : Legacy.slotOf it with
+  | none => rfl
+  | some c =>
+    simp only
+    have hc : c < slots := by
+      unfold Legacy.slotOf at hs
+      cases it <;> simp only [cidOk, decide_eq_true_eq] at h <;> simp at hs
+      all_goals (obtain ⟨_, rfl⟩ := hs; exact h)
+    rw [if_neg (by omega)]
 
-theorem interp_no_oom (cfg : Cfg) : ∀ (rs : List Rec) (t : Tail) (rd : Reader), CidsBelow cfg.memCids rs →
-    (interp cfg rd rs t).final ≠ .oom := by
+/-- Below the table bound the old reader behaved exactly as the repaired one does. -/
+theorem Legacy.interp_of_below (slots : Nat) (cfg : Cfg) : ∀ (rs : List Rec) (t : Tail) (rd : Reader),
+    CidsBelow slots rs → Legacy.interp slots cfg rd rs t = some (Teehistorian.interp cfg rd rs t) := by
   intro rs
   induction rs with
-  | nil =>
-    intro t rd _
-    unfold interp
-    cases t <;> simp <;> (split <;> simp)
+  | nil => intro t rd _; rfl
   | cons r rs ih =>
     intro t rd h
-    unfold interp
+    unfold Legacy.interp Teehistorian.interp
     cases hp : preAll 4 rd r.kind with
     | mk its pe =>
       cases pe with
-      | stuck => simp
-      | err e rd2 => simp
+      | stuck => rfl
+      | err e rd2 => rfl
       | ready rd2 =>
         simp only
-        cases hpost : rd2.post cfg r.item with
-        | finished rd3 => simp
-        | err e rd3 => simp
-        | oom rd3 =>
-          have hr := h r (List.mem_cons_self ..)
-          rcases post_oom hpost with ⟨c, x, y, hi, hc⟩ | ⟨c, v, hi, hc⟩
-          · rw [hi] at hr; simp only [cidOk, decide_eq_true_eq] at hr; exact absurd hr hc
-          · rw [hi] at hr; simp only [cidOk, decide_eq_true_eq] at hr; exact absurd hr hc
+        rw [Legacy.post_of_cidOk (h r (List.mem_cons_self ..))]
+        cases hpost : rd2.post r.item with
+        | finished rd3 => rfl
+        | err e rd3 => rfl
         | item it rd3 =>
           simp only
-          exact ih t rd3 (fun r' hr' => h r' (List.mem_cons_of_mem _ hr'))
+          rw [ih t rd3 (fun r' hr' => h r' (List.mem_cons_of_mem _ hr'))]
+
+/-- The old reader ran out of table slots as soon as the first record it processed asked for a
+slot beyond the bound. -/
+theorem Legacy.interp_none_of_first {slots : Nat} {cfg : Cfg} {rd rd' : Reader} {r : Rec} {rs : List Rec}
+    {t : Tail} {its : List Item} (hp : preAll 4 rd r.kind = (its, .ready rd'))
+    (hs : ∃ c, Legacy.slotOf r.item = some c ∧ slots ≤ c) :
+    Legacy.interp slots cfg rd (r :: rs) t = none := by
+  obtain ⟨c, hc, hle⟩ := hs
+  unfold Legacy.interp
+  rw [hp]
+  simp only [Legacy.post, hc]
+  rw [if_pos hle]
 
 end Tw.Teehistorian
